@@ -50,6 +50,10 @@ func (e *Enc) queryS(o *Obl, models bool, sliced bool) string {
 }
 
 func (e *Enc) queryOpt(o *Obl, models bool, sliced bool, skolem bool) string {
+	return e.queryOpt2(o, models, sliced, skolem, false)
+}
+
+func (e *Enc) queryOpt2(o *Obl, models bool, sliced bool, skolem bool, inst bool) string {
 	var b strings.Builder
 	b.WriteString("; obligation " + o.Name + "\n")
 	if models {
@@ -64,7 +68,37 @@ func (e *Enc) queryOpt(o *Obl, models bool, sliced bool, skolem bool) string {
 	b.WriteString("(assert " + o.Guard.String() + ")\n")
 	if o.Kind != "cover" {
 		if skolem {
-			b.WriteString(negatedGoal(o.Goal))
+			// the quantified hypotheses instantiated at the goal's skolem constants (the induction
+			// step of "forall k. P(k)" needs the hypothesis at the very k the goal is refuted
+			// for; E-matching finds that instance only when the index terms happen to be
+			// written alike)
+			var sk []Bound
+			for g := o.Goal; g.Op == "forall" && len(g.Args) == 1; g = g.Args[0] {
+				sk = append(sk, g.Q...)
+			}
+			if len(sk) > 0 {
+				for _, q := range sk {
+					b.WriteString("(declare-const " + quoteSym(q.Name) + " " + q.S.String() + ")\n")
+				}
+				n := 0
+				for _, f := range e.relevantFacts(o, sliced) {
+					if !inst {
+						break
+					}
+					for _, inst := range instancesAt(f.T, sk) {
+						if n >= 60 {
+							break
+						}
+						n++
+						if f.Guard == nil || f.Guard.IsTrue() {
+							b.WriteString("(assert " + inst.String() + ")\n")
+						} else {
+							b.WriteString("(assert (=> " + f.Guard.String() + " " + inst.String() + "))\n")
+						}
+					}
+				}
+			}
+			b.WriteString(negatedGoalNoDecl(o.Goal))
 		} else {
 			b.WriteString("(assert (not " + o.Goal.String() + "))\n")
 		}
@@ -79,6 +113,11 @@ func (e *Enc) queryOpt(o *Obl, models bool, sliced bool, skolem bool) string {
 // querySkolem: the same query with the goal's leading universal quantifiers skolemised by hand.
 func (e *Enc) querySkolem(o *Obl) string {
 	return e.queryOpt(o, false, false, true)
+}
+
+// querySkolemInst: querySkolem plus the quantified hypotheses instantiated at the skolem constants.
+func (e *Enc) querySkolemInst(o *Obl) string {
+	return e.queryOpt2(o, false, false, true, true)
 }
 
 // negatedGoal: (assert (not G)); the leading universal quantifiers of G are skolemised by
@@ -327,6 +366,12 @@ func raceOne(e *Enc, o *Obl, cfg *SolverCfg, base string) {
 			defer os.Remove(skFile)
 		}
 		runs = append(runs, solverSpec{"z3-new/skolem", func(_ string, t int) []string { return []string{"z3-new", fmt.Sprintf("-T:%d", t), skFile} }})
+		siFile := strings.TrimSuffix(file, ".smt2") + ".skinst.smt2"
+		os.WriteFile(siFile, []byte(e.querySkolemInst(o)), 0o644)
+		if !cfg.KeepFiles {
+			defer os.Remove(siFile)
+		}
+		runs = append(runs, solverSpec{"z3-new/skolem+inst", func(_ string, t int) []string { return []string{"z3-new", fmt.Sprintf("-T:%d", t), siFile} }})
 	}
 	ch := make(chan ans, len(runs))
 	for _, s := range runs {
@@ -762,4 +807,51 @@ func (e *Enc) goalSplit(o *Obl, cfg *SolverCfg, file string) {
 			return
 		}
 	}
+}
+
+func negatedGoalNoDecl(g *Term) string {
+	for g.Op == "forall" && len(g.Args) == 1 {
+		g = g.Args[0]
+	}
+	return "(assert (not " + g.String() + "))\n"
+}
+
+// instancesAt: ground instances of the universally quantified parts of a fact at the given
+// constants (matched by position and sort).
+func instancesAt(t *Term, sk []Bound) []*Term {
+	switch {
+	case t.Op == "forall" && len(t.Args) == 1:
+		var qs []Bound
+		body := t
+		for body.Op == "forall" && len(body.Args) == 1 {
+			qs = append(qs, body.Q...)
+			body = body.Args[0]
+		}
+		if len(qs) > len(sk) {
+			return nil
+		}
+		m := map[string]*Term{}
+		for i, q := range qs {
+			if !sameSort(q.S, sk[i].S) {
+				return nil
+			}
+			if q.Name != sk[i].Name {
+				m[q.Name] = Var(sk[i].Name, sk[i].S)
+			}
+		}
+		return []*Term{body.Subst(m)}
+	case t.Op == "=>" && len(t.Args) == 2:
+		var out []*Term
+		for _, i := range instancesAt(t.Args[1], sk) {
+			out = append(out, Implies(t.Args[0], i))
+		}
+		return out
+	case t.Op == "and":
+		var out []*Term
+		for _, a := range t.Args {
+			out = append(out, instancesAt(a, sk)...)
+		}
+		return out
+	}
+	return nil
 }
